@@ -47,6 +47,9 @@ def api_corr(rng, tier, prop):
             dis.append({'class': tag, 'check': 'N records for N points', 'observed': [r['n_points'], r['n_records']]})
         if d['names'] is not None and r['names'] != d['names']:
             dis.append({'class': tag, 'why': 'field names differ from the catalogue (model)', 'catalogue': d['names'], 'real': r['names']})
+        if r.get('order_preserved') is False:
+            dis.append({'class': tag, 'check': 'records follow the order of the requested points', 'permutation_of_sorted_points': r.get('order_perm'),
+                        'observed': 'fields are not permuted like the positions'})
         if r.get('int_equals_float') is False:
             dis.append({'class': tag, 'check': 'integer positions silently give different values than the same floats'})
     stats['exercised'] = exercised
